@@ -145,3 +145,30 @@ pub fn five_tigers(year_stem: i64) -> i64 { match year_stem % 5 { 0 => 2, 1 => 4
 pub fn five_rats(day_stem: i64) -> i64 { match day_stem % 5 { 0 => 0, 1 => 2, 2 => 4, 3 => 6, _ => 8 } }
 /// pillar index from (stem, branch) of equal parity (CRT): the unique p in 0..59 with p%10==s, p%12==b
 pub fn pillar_index(s: i64, b: i64) -> i64 { md(6 * s - 5 * b, 60) }
+
+/// 人元司令分野: per Jie month (by month branch) up to three commanding stems with their day allotments, in order
+/// (residual, middle, main); stem -1 = no middle slot; the main stem takes the rest of the month (99).
+/// 寅 戊7 丙7 甲  卯 甲10 乙  辰 乙9 癸3 戊  巳 戊5 庚9 丙  午 丙10 己9 丁  未 丁9 乙3 己
+/// 申 戊10 壬3 庚  酉 庚10 辛  戌 辛9 丁3 戊  亥 戊7 甲5 壬  子 壬10 癸  丑 癸9 辛3 己
+pub fn commanding_allot(month_branch: i64) -> [(i64, i64); 3] {
+  match month_branch {
+    2 => [(4, 7), (2, 7), (0, 99)], 3 => [(0, 10), (-1, 0), (1, 99)], 4 => [(1, 9), (9, 3), (4, 99)], 5 => [(4, 5), (6, 9), (2, 99)],
+    6 => [(2, 10), (5, 9), (3, 99)], 7 => [(3, 9), (1, 3), (5, 99)], 8 => [(4, 10), (8, 3), (6, 99)], 9 => [(6, 10), (-1, 0), (7, 99)],
+    10 => [(7, 9), (3, 3), (4, 99)], 11 => [(4, 7), (0, 5), (8, 99)], 0 => [(8, 10), (-1, 0), (9, 99)], _ => [(9, 9), (7, 3), (5, 99)],
+  }
+}
+/// (stem, slot 0 residual / 1 middle / 2 main, day index inside the slot) of day `off` (0-based) of the Jie month
+pub fn commanding_stem(month_branch: i64, off: i64) -> (i64, i64, i64) {
+  let a = commanding_allot(month_branch);
+  let mut acc = 0i64;
+  let mut slot = 0usize;
+  while slot < 3 {
+    let (stem, days) = a[slot];
+    if stem >= 0 {
+      if off < acc + days { return (stem, slot as i64, off - acc); }
+      acc += days;
+    }
+    slot += 1;
+  }
+  (-1, -1, -1)
+}
